@@ -56,6 +56,7 @@ class Agg:
         self.faulty_runs = 0
         self.errors: List[str] = []
         self.subspaces: Dict[str, int] = {}
+        self.sets: Dict[str, set] = {}
 
     def add(self, case: Dict[str, Any], r: RunResult) -> None:
         self.runs += 1
@@ -78,6 +79,8 @@ class Agg:
             self.faulty_runs += 1
         if r.sample is not None and len(self.samples) < 2:
             self.samples.append(r.sample)
+        for k, v in getattr(r, "sets", {}).items():
+            self.sets.setdefault(k, set()).update(v)
         sub = case.get("subspace")
         if sub:
             self.subspaces[sub] = self.subspaces.get(sub, 0) + 1
@@ -87,7 +90,9 @@ class Agg:
                                         "digest": r.digest})
 
     def pack(self) -> Dict[str, Any]:
-        return self.__dict__
+        d = dict(self.__dict__)
+        d["sets"] = {k: sorted(v) for k, v in self.sets.items()}
+        return d
 
 
 def _worker_job(prop: str, tier: str, base_seed: int, job: Dict[str, Any], wall_cap: float) -> Dict[str, Any]:
@@ -133,12 +138,13 @@ def match_known(sig: str, open_findings: List[Dict[str, Any]]) -> Optional[Dict[
 # ---------------------------------------------------------------------------------------------------
 # replay + minimisation
 # ---------------------------------------------------------------------------------------------------
-def _fails(mod, case, choices, vclass) -> Tuple[bool, Optional[RunResult]]:
+def _fails(mod, case, choices, vsig) -> Tuple[bool, Optional[RunResult]]:
+    """Same violation = same signature (which implies the same class)."""
     try:
         r = mod.run_case(case, replay=choices)
     except Exception:
         return False, None
-    return any(v.cls == vclass for v in r.violations), r
+    return any(v.sig == vsig for v in r.violations), r
 
 
 def _ddmin_list(items: List[Any], test, deadline: float) -> List[Any]:
@@ -303,6 +309,9 @@ def run_check(prop: str, tier: str) -> int:
     payloads: List[Dict[str, Any]] = []
     errors: List[str] = []
     deadline = t_start + budget
+    growth: Dict[str, Any] = {}
+    sig_counts: Dict[str, int] = {}
+    open_findings, fixed_findings = load_known(prop)
     ctx = multiprocessing.get_context("fork")
     njobs = 0
     try:
@@ -347,13 +356,24 @@ def run_check(prop: str, tier: str) -> int:
                     shapes.update(a["shapes"])
                     if len(total.samples) < 4:
                         total.samples.extend(a["samples"][: 4 - len(total.samples)])
-                    payloads.extend(a["violations"])
+                    for pl in a["violations"]:
+                        sg = pl["violation"]["signature"]
+                        sig_counts[sg] = sig_counts.get(sg, 0) + 1
+                        if sig_counts[sg] <= 3:
+                            payloads.append(pl)
                     errors.extend(a["errors"])
+                    for k, v in a.get("sets", {}).items():
+                        cur = total.sets.setdefault(k, set())
+                        before = len(cur)
+                        cur.update(v)
+                        if len(cur) != before:
+                            growth[k] = (total.runs, len(cur))
                 if errors:
                     for f in pending:
                         f.cancel()
                     break
-                if len(payloads) >= 24:
+                unknown = [sg for sg in sig_counts if match_known(sg, open_findings) is None]
+                if len(unknown) >= 4 or sum(sig_counts[sg] for sg in unknown) >= 40:
                     exhausted = True
                 submit_more()
     except BrokenProcessPool as e:
@@ -369,7 +389,6 @@ def run_check(prop: str, tier: str) -> int:
         return 2
 
     # -- violations: group by signature, minimise, write replay, verify, classify ------------------------
-    open_findings, fixed_findings = load_known(prop)
     by_sig: Dict[str, List[Dict[str, Any]]] = {}
     for p in payloads:
         by_sig.setdefault(p["violation"]["signature"], []).append(p)
@@ -381,7 +400,7 @@ def run_check(prop: str, tier: str) -> int:
         group = by_sig[sig]
         known = match_known(sig, open_findings)
         if known is not None:
-            known_seen[sig] = len(group)
+            known_seen[sig] = sig_counts.get(sig, len(group))
             continue
         if reported >= 3:
             continue
@@ -390,13 +409,13 @@ def run_check(prop: str, tier: str) -> int:
         orig_path = write_replay(prop, case, choices, None, vj, p["digest"], suffix="-orig")
         path = orig_path
         try:
-            m = minimise(mod, case, choices, vj["class"], min_budget)
+            m = minimise(mod, case, choices, vj["signature"], min_budget)
         except Exception as e:
             m = None
             print(f"[check] minimisation raised {type(e).__name__}: {e}")
         if m is not None:
             mcase, mchoices, mr = m
-            mv = [v for v in mr.violations if v.cls == vj["class"]][0]
+            mv = [v for v in mr.violations if v.sig == vj["signature"]][0]
             path = write_replay(prop, mcase, mchoices, None, mv.to_json(), mr.digest)
             vj = mv.to_json()
             nplan = len(mcase.get("plan", [])) if isinstance(mcase.get("plan"), list) else None
@@ -411,7 +430,7 @@ def run_check(prop: str, tier: str) -> int:
             print(f"HARNESS-ERROR property={prop} violation '{sig}' did not reproduce from its replay file in a fresh "
                   f"interpreter (nondeterminism in the harness?)\n{out}")
             return 2
-        print(f"[check] {vj['class']} [{vj['signature']}]: {vj['message']}  ({len(group)} occurrence(s))")
+        print(f"[check] {vj['class']} [{vj['signature']}]: {vj['message']}  ({sig_counts.get(sig, len(group))} occurrence(s))")
         print(f"VIOLATION property={prop} replay={path}", flush=True)
         reported += 1
         exit_code = 1
@@ -447,6 +466,8 @@ def run_check(prop: str, tier: str) -> int:
         "workers": workers,
         "known_findings_observed": known_seen,
         "exhaustive": bool(getattr(mod, "EXHAUSTIVE", {}).get(tier, False)),
+        "reached_sets": {k: {"size": len(v), "last_grew_at_run": growth.get(k, (0, 0))[0], "of_runs": total.runs,
+                             "members": sorted(v)[:60]} for k, v in sorted(total.sets.items())},
     }
     extra = getattr(mod, "evidence_extra", None)
     if extra is not None:
